@@ -31,6 +31,8 @@ CHECKS = {
        "register / restore_packets, the identifiers announced as released in the call are pairwise distinct, each was in use before, and "
        "afterwards exactly the announced ones have turned free; only a call that starts a new session (CONNECT with Clean Start sent or "
        "received, CONNACK that does not keep the session) may instead leave every identifier free — the wholesale reset. "
+       "BETWEEN TWO ENDPOINTS: over any sequence of complete exchanges of any QoS mix, either side publishing, the identifiers in use on each "
+       "side after the run are those in use before it (C08_sequences_leak_no_identifier, Conn/PairSeqMixedIds.v). "
        "PARTIAL (C08_partial): the no-leak-on-close clause as a statement about ownership ghosts is decided by "
        "the monitor (in-use set from the hook, ghost of application-held ids) on the implementation's traces, by the store stage (mon_c06: an accepted PUBLISH/PUBREL is sent or stored, so its identifier cannot leak) "
        "and by the allocator stage (C20's allocator correspondence and set-specification monitor on ValueAllocator traces whose range "
@@ -241,6 +243,8 @@ CHECKS = {
        "(C01_two_way_mixed_sequence_exactly_once_v5, C01_fresh_v5_two_way_mixed_sequence, Conn/PairSeqMixed25.v, PairSeqMixedFresh5.v); "
        "the same with manual responses, both versions (C01_pair_mixed_sequence_exactly_once_manual, ..._manual_v5, C01_qos0_step_any_endpoints, "
        "Conn/PairSeqMixedM.v); "
+       "and the identifiers: after any two-way mixed sequence the identifiers in use on both sides are the ones in use before - none when none "
+       "was (C01_two_way_mixed_sequence_identifiers_unchanged, C01_two_way_mixed_sequence_quiescent, Conn/PairSeqMixedIds.v); "
        "(1v5) v5.0 WITH SEVERAL EXCHANGES IN FLIGHT: the invariant adds the Receive Maximum accounts (sender's count = exchanges in "
        "flight <= the peer's limit; receiver's outstanding set = its handled set), the quota is never exceeded, and after the drain the "
        "vacancy is the full maximum (C01_pair_concurrent_exactly_once_v5); (1b) THE SAME ACROSS TRANSPORT LOSS - persistent sessions, one more action 'the transport "
